@@ -210,6 +210,17 @@ example : PosLimits exHist := by
 
 example : (run exP (State.init exP 2) exHist).2 = specRun exP 2 exHist := by decide
 
+/-- the hypotheses of `C13_session_registers_and_scratch_never_read` are met by two DIFFERENT states: the state after
+    that session and a fresh one with the same limit both satisfy the invariant, and they differ in registers, scratch,
+    caches and kept objects -/
+example : Inv exP (run exP (State.init exP 2) exHist).1 ∧ Inv exP (State.init exP 1 : State Nat Nat Nat Nat Nat Nat Nat Nat) ∧
+    (run exP (State.init exP 2) exHist).1.limit = (State.init exP 1 : State Nat Nat Nat Nat Nat Nat Nat Nat).limit ∧
+    ((run exP (State.init exP 2) exHist).1.coders 2).regs ≠ ((State.init exP 1 : State Nat Nat Nat Nat Nat Nat Nat Nat).coders 2).regs :=
+  ⟨(run_spec exP _ exHist (Inv.init exP 2) (by intro n hn; simp [exHist] at hn; omega)).1, Inv.init exP 1, by decide, by decide⟩
+
+/-- the hypothesis of `C13_session_header_failure_changes_nothing` is met (input 7: damaged head) -/
+example : exP.header .decode 7 = .error .bitRead := by decide
+
 /-- in that session the registers of coder 2 and the scratch of viewer 0 really are dirty at the end -/
 example : ((run exP (State.init exP 2) exHist).1.coders 2).regs = some 1 ∧
     (run exP (State.init exP 2) exHist).1.viewers 0 = 6 ∧
